@@ -386,8 +386,9 @@ def run(P, R, tier):
         prm = g.value_params[0]
         def whole_collections(fn_, prm_, depth=0):
             n_ = 0
-            for st, t, v, k in stores(fn_):
-                if isinstance(v, ast.ListComp) and isinstance(v.generators[0].iter, ast.Name) and v.generators[0].iter.id == prm_ and not v.generators[0].ifs and isinstance(v.elt, ast.Subscript):
+            for v in walk_no_nested(fn_.node):
+                # bound to a name or written in place as an argument: either way a collection over every element of the list
+                if isinstance(v, ast.ListComp) and len(v.generators) == 1 and isinstance(v.generators[0].iter, ast.Name) and v.generators[0].iter.id == prm_ and not v.generators[0].ifs and isinstance(v.elt, ast.Subscript):
                     n_ += 1
             if depth < 2:
                 # ... or in a helper that receives the whole list
